@@ -151,6 +151,10 @@ pub struct ReplayFile {
     pub violations: Vec<Viol>,
     #[serde(default)]
     pub note: Option<Value>,
+    /// points that are run (outcomes ignored) on the same thread BEFORE the point: a violation that only shows after
+    /// earlier calls (state kept between calls inside the library) is replayed together with its history
+    #[serde(default)]
+    pub history: Vec<Value>,
 }
 
 pub enum Mode {
@@ -166,6 +170,7 @@ pub struct Report {
     root: String,
     t0: Instant,
     evaluations: u64,
+    history_points: u64,
     executions: u64,
     states: u64,
     transitions: u64,
@@ -178,7 +183,7 @@ pub struct Report {
     per_check: Vec<Value>,
     caps: Vec<String>,
     machinery: Vec<String>,
-    unknown: Vec<(String, Value, Vec<Viol>, Option<Value>)>,
+    unknown: Vec<(String, Value, Vec<Viol>, Option<Value>, Vec<Value>)>,
     known: Vec<OpenFinding>,
     known_hits: BTreeMap<usize, (u64, String)>,
     pub assumptions: Vec<String>,
@@ -332,6 +337,7 @@ impl Report {
             caps: vec![],
             machinery: vec![],
             unknown: vec![],
+            history_points: 0,
             known_hits: BTreeMap::new(),
             assumptions: vec![],
             exhaustive: false,
@@ -343,6 +349,38 @@ impl Report {
         matches!(self.mode, Mode::Replay(_))
     }
 
+
+    /// Runs the points `hist` (outcomes ignored) and then point `i` on a FRESH thread, so that whatever the library keeps
+    /// between calls (thread-locals, caches) comes from exactly this history; returns the violations of point `i`.
+    fn run_after<C: Check>(c: &C, pts: &[C::P], hist: &[usize], i: usize) -> Option<Vec<Viol>> {
+        std::thread::scope(|sc| {
+            sc.spawn(|| {
+                for &q in hist {
+                    let _ = Self::run_guarded(c, &pts[q]);
+                }
+                Self::run_guarded(c, &pts[i]).ok().map(|o| o.viols)
+            })
+            .join()
+            .ok()
+            .flatten()
+        })
+    }
+    /// Shortest suffix (0, 1, 2, 4, ... points) of `prefix` after which point `i` shows exactly `viols`, twice in a row on
+    /// fresh threads.
+    fn shortest_history<C: Check>(c: &C, pts: &[C::P], prefix: &[usize], i: usize, viols: &Vec<Viol>) -> Option<Vec<usize>> {
+        let mut h = 0usize;
+        loop {
+            let h_eff = h.min(prefix.len());
+            let hist = &prefix[prefix.len() - h_eff..];
+            if Self::run_after(c, pts, hist, i).as_ref() == Some(viols) && Self::run_after(c, pts, hist, i).as_ref() == Some(viols) {
+                return Some(hist.to_vec());
+            }
+            if h_eff == prefix.len() {
+                return None;
+            }
+            h = if h == 0 { 1 } else { h * 2 };
+        }
+    }
     fn run_guarded<C: Check>(c: &C, p: &C::P) -> Result<Outcome, String> {
         LAST_PANIC_FILE.with(|f| f.borrow_mut().clear());
         match guard(|| c.run(p)) {
@@ -378,9 +416,14 @@ impl Report {
                     std::process::exit(2)
                 }
             };
+            for h in &rf.history {
+                if let Ok(hp) = serde_json::from_value::<C::P>(h.clone()) {
+                    let _ = Self::run_guarded(c, &hp);
+                }
+            }
             match Self::run_guarded(c, &p) {
                 Ok(o) => {
-                    println!("REPLAY property={} check={} point={}", self.id, c.name(), rf.point);
+                    println!("REPLAY property={} check={} point={} (after {} history points)", self.id, c.name(), rf.point, rf.history.len());
                     println!("  signature: {}", o.sig);
                     for (k, v) in &o.metrics {
                         println!("  metric {} = {:e}", k, v);
@@ -443,14 +486,77 @@ impl Report {
                 }
             }
         }
-        let results: Vec<Result<Outcome, String>> = pts
+        // The lattice in its own order, cut into runs of `run_len` consecutive points.  Every run is executed on a FRESH thread
+        // (the runs are spread over the pool): first from its first point to its last ("there"), then from the last back to
+        // the first ("back").  So the calls that precede a point inside the library's thread-local or cached state are
+        // exactly the earlier points of its run - known, and replayable - and every point is met once after its lower and
+        // once after its higher neighbours (growing and shrinking sizes, refined and coarsened steps).  The outcomes of
+        // the way there feed the evidence; on the way back a point that was clean there is judged by the same clauses again.
+        // (run length: 64 for large lattices, shorter - at least 8 - for small ones, so that there are at least 64 runs to
+        // spread over the pool)
+        let run_len: usize = (pts.len() / 64).clamp(8, 64);
+        let all_idx: Vec<usize> = (0..pts.len()).collect();
+        let back_limit_s: f64 = if self.tier == Tier::Quick { f64::INFINITY } else { 120.0 };
+        let do_back = std::env::var("VERIF_NO_HISTORY_PASS").is_err();
+        // (the runs are handed to the pool alternately from the end and from the start of the lattice: the expensive points
+        // of a nested-loop lattice sit together at one of its ends and would otherwise all land on the last few threads)
+        let chunks: Vec<&[usize]> = all_idx.chunks(run_len).collect();
+        let mut order: Vec<usize> = Vec::with_capacity(chunks.len());
+        let (mut lo, mut hi) = (0usize, chunks.len());
+        while lo < hi {
+            hi -= 1;
+            order.push(hi);
+            if lo < hi {
+                order.push(lo);
+                lo += 1;
+            }
+        }
+        let mut per_run_unordered: Vec<(usize, (Vec<Result<Outcome, String>>, Vec<(usize, Vec<Viol>)>, usize))> = order
             .par_iter()
-            .map(|p| {
-                let r = Self::run_guarded(c, p);
-                PROGRESS.fetch_add(1, Ordering::Relaxed);
-                r
+            .map(|&ci| {
+                let ch = chunks[ci];
+                (ci, {
+                std::thread::scope(|sc| {
+                    sc.spawn(|| {
+                        let there: Vec<Result<Outcome, String>> = ch
+                            .iter()
+                            .map(|&i| {
+                                let r = Self::run_guarded(c, &pts[i]);
+                                PROGRESS.fetch_add(1, Ordering::Relaxed);
+                                r
+                            })
+                            .collect();
+                        let mut back = vec![];
+                        let mut n_back = 0usize;
+                        if do_back && t0.elapsed().as_secs_f64() < back_limit_s {
+                            for (j, &i) in ch.iter().enumerate().rev() {
+                                n_back += 1;
+                                let clean_there = matches!(&there[j], Ok(o) if o.viols.is_empty());
+                                if let Ok(o) = Self::run_guarded(c, &pts[i]) {
+                                    if clean_there && !o.viols.is_empty() {
+                                        back.push((i, o.viols));
+                                    }
+                                }
+                            }
+                        }
+                        (there, back, n_back)
+                    })
+                    .join()
+                    .unwrap_or_else(|_| (ch.iter().map(|_| Err("the run's thread died".to_string())).collect(), vec![], 0))
+                })
+                })
             })
             .collect();
+        per_run_unordered.sort_by_key(|x| x.0);
+        let per_run: Vec<(Vec<Result<Outcome, String>>, Vec<(usize, Vec<Viol>)>, usize)> = per_run_unordered.into_iter().map(|x| x.1).collect();
+        let mut results: Vec<Result<Outcome, String>> = Vec::with_capacity(pts.len());
+        let mut back_found: Vec<(usize, Vec<Viol>)> = vec![];
+        let mut history_points = 0usize;
+        for (there, back, n_back) in per_run {
+            results.extend(there);
+            back_found.extend(back);
+            history_points += n_back;
+        }
         let mut n_sigs_before = self.sig_hashes.len();
         let mut check_exec = 0u64;
         let mut check_viol = 0u64;
@@ -497,17 +603,28 @@ impl Report {
             }
             if !o.viols.is_empty() {
                 check_viol += 1;
-                // determinism: the same point must fail identically twice more
-                let again1 = Self::run_guarded(c, p).map(|x| x.viols);
-                let again2 = Self::run_guarded(c, p).map(|x| x.viols);
-                if again1.as_ref().ok() != Some(&o.viols) || again2.as_ref().ok() != Some(&o.viols) {
-                    self.machinery.push(format!(
-                        "non-deterministic verdict in check {} at point {}",
-                        c.name(),
-                        serde_json::to_string(p).unwrap_or_default()
-                    ));
-                    continue;
+                // determinism: the same point must fail identically twice more - alone on a fresh thread, or, failing
+                // that, after the shortest suffix of the points that preceded it in its run
+                let run_start = i - i % run_len;
+                let prefix: Vec<usize> = (run_start..i).collect();
+                let hist = match Self::shortest_history(c, &pts, &prefix, i, &o.viols) {
+                    Some(h) => h,
+                    None => {
+                        self.machinery.push(format!(
+                            "non-deterministic verdict in check {} at point {}",
+                            c.name(),
+                            serde_json::to_string(p).unwrap_or_default()
+                        ));
+                        continue;
+                    }
+                };
+                let mut o = o;
+                if !hist.is_empty() {
+                    for v in o.viols.iter_mut() {
+                        v.detail = format!("[only after {} earlier call(s) on the same thread - state is kept between calls] {}", hist.len(), v.detail);
+                    }
                 }
+                let hist_values: Vec<Value> = hist.iter().map(|&q| serde_json::to_value(&pts[q]).unwrap()).collect();
                 let mut unknown = vec![];
                 for v in &o.viols {
                     let mut hit = None;
@@ -527,10 +644,35 @@ impl Report {
                 }
                 if !unknown.is_empty() {
                     let rp = o.replay_point.clone().unwrap_or_else(|| serde_json::to_value(p).unwrap());
-                    self.unknown.push((c.name().to_string(), rp, unknown, o.note.clone()));
+                    self.unknown.push((c.name().to_string(), rp, unknown, o.note.clone(), hist_values));
                 }
             }
         }
+        // violations met only on the way back of a run
+        for (i, viols) in back_found.into_iter().take(10) {
+            let run_start = i - i % run_len;
+            let run_end = (run_start + run_len).min(pts.len());
+            // what preceded the point on its thread: the whole run there, then the way back down to its upper neighbour
+            let mut prefix: Vec<usize> = (run_start..run_end).collect();
+            prefix.extend(((i + 1)..run_end).rev());
+            match Self::shortest_history(c, &pts, &prefix, i, &viols) {
+                Some(hist) => {
+                    check_viol += 1;
+                    let mut vs = viols.clone();
+                    for v in vs.iter_mut() {
+                        v.detail = format!("[only after {} earlier call(s) on the same thread - state is kept between calls] {}", hist.len(), v.detail);
+                    }
+                    let hv: Vec<Value> = hist.iter().map(|&q| serde_json::to_value(&pts[q]).unwrap()).collect();
+                    self.unknown.push((c.name().to_string(), serde_json::to_value(&pts[i]).unwrap(), vs, None, hv));
+                }
+                None => self.machinery.push(format!(
+                    "way back: check {} point {} violated a clause after earlier calls, but not reproducibly from the history of its run",
+                    c.name(),
+                    serde_json::to_string(&pts[i]).unwrap_or_default()
+                )),
+            }
+        }
+        self.history_points += history_points as u64;
         let new_sigs = self.sig_hashes.len() - n_sigs_before;
         n_sigs_before = self.sig_hashes.len();
         let _ = n_sigs_before;
@@ -610,6 +752,8 @@ impl Report {
             "caps_hit": self.caps,
             "known_findings_reproduced": known_lines,
             "machinery_errors": self.machinery,
+            "history_pass_points": self.history_points,
+            "history_pass_rule": "the lattice is cut into runs of 8 to 64 consecutive points (n/64, clamped); every run is executed on a fresh thread from its first point to its last and then back down to the first, and every execution is judged by the same clauses (a point that violates a clause only after earlier calls is reproduced twice on fresh threads from the shortest suffix of its run history that reproduces it, and reported with that history); in the thorough tier the way back is skipped for runs that start more than 120 s into the check",
         });
         if self.level == "model_checking" {
             let m = coverage.as_object_mut().unwrap();
@@ -648,7 +792,7 @@ impl Report {
         }
         if nviol > 0 {
             let mut tally: BTreeMap<String, (u64, String)> = BTreeMap::new();
-            for (check, _, viols, _) in &self.unknown {
+            for (check, _, viols, _, _) in &self.unknown {
                 for v in viols {
                     let e = tally.entry(format!("{} | {} | {} | {}", check, v.subject, v.clause, v.class)).or_insert((0, v.detail.clone()));
                     e.0 += 1;
@@ -660,13 +804,13 @@ impl Report {
             }
             let rdir = format!("{}/replays", self.root);
             let _ = std::fs::create_dir_all(&rdir);
-            for (i, (check, point, viols, note)) in self.unknown.iter().enumerate() {
+            for (i, (check, point, viols, note, history)) in self.unknown.iter().enumerate() {
                 if i >= 10 {
                     println!("... {} further violating points not written out", nviol - i);
                     break;
                 }
                 let path = format!("{}/{}-{}-{}.json", rdir, self.id, check, i);
-                let rf = ReplayFile { property: self.id.clone(), check: check.clone(), point: point.clone(), violations: viols.clone(), note: note.clone() };
+                let rf = ReplayFile { property: self.id.clone(), check: check.clone(), point: point.clone(), violations: viols.clone(), note: note.clone(), history: history.clone() };
                 let _ = std::fs::write(&path, serde_json::to_string_pretty(&rf).unwrap());
                 println!("VIOLATION property={} replay={}", self.id, path);
                 for v in viols.iter().take(1) {
